@@ -254,7 +254,7 @@ func ruleProxy(r *Run, p *Prog) {
 	fieldOf := func(in ssa.Instruction) (string, ssa.Value) {
 		if s, ok := in.(*ssa.Store); ok {
 			if fa, ok := s.Addr.(*ssa.FieldAddr); ok {
-				return fieldVar(fa).Name(), s.Val
+				return fname(fieldVar(fa)), s.Val
 			}
 		}
 		return "", nil
@@ -336,7 +336,7 @@ func ruleProxy(r *Run, p *Prog) {
 			for idx, in := range pa.Instrs() {
 				if c, ok := in.(*ssa.Call); ok {
 					if c.Call.IsInvoke() && c.Call.Method.Name() == callName {
-						if fv, _ := loadedField(c.Call.Value); fv != nil && fv.Name() == "ResponseWriter" || isAssertOfField(c.Call.Value, "ResponseWriter") {
+						if fv, _ := loadedField(c.Call.Value); fv != nil && fname(fv) == "ResponseWriter" || isAssertOfField(c.Call.Value, "ResponseWriter") {
 							under, underAt = c, idx
 						}
 					}
@@ -356,7 +356,7 @@ func ruleProxy(r *Run, p *Prog) {
 							cnt = cv.X
 						}
 						if ex, isEx := cnt.(*ssa.Extract); isEx && ex.Tuple == ssa.Value(under) && ex.Index == 0 {
-							if fv, _ := loadedField(bo.X); fv != nil && fv.Name() == "bytes" {
+							if fv, _ := loadedField(bo.X); fv != nil && fname(fv) == "bytes" {
 								addOK = true
 							}
 						}
@@ -375,7 +375,7 @@ func ruleProxy(r *Run, p *Prog) {
 		// tee == nil paths only (Tee is outside the property's alphabet)
 		return hasCmp(pa.Cmps(), func(op token.Token, x, y ssa.Value) bool {
 			fv, _ := loadedField(x)
-			return fv != nil && fv.Name() == "tee" && isNilConst(y) && op == token.EQL
+			return fv != nil && fname(fv) == "tee" && isNilConst(y) && op == token.EQL
 		})
 	})
 	// maybeWriteHeader
@@ -460,7 +460,7 @@ func isAssertOfField(v ssa.Value, field string) bool {
 		return false
 	}
 	fv, _ := loadedField(ta.X)
-	return fv != nil && fv.Name() == field
+	return fv != nil && fname(fv) == field
 }
 
 // sameProxy: v (in function f) designates the same local as `served` in servedIn (directly or as a captured variable).
@@ -560,7 +560,7 @@ func ruleA24(r *Run, p *Prog) {
 					return
 				}
 				fv, _ := loadedField(ta.X)
-				if fv == nil || fv.Name() != "ResponseWriter" {
+				if fv == nil || fname(fv) != "ResponseWriter" {
 					return
 				}
 				it := types.TypeString(ta.AssertedType, shortQual)
